@@ -83,6 +83,7 @@ class Finder:
         # (a last value that is an extension alias, eg. "maya", still needs unfolding,
         # and so does a search whose symbols, eg. "/**", were overwritten by its own query)
         is_search = sid.is_search() or any(s in str(search_sid) for s in conf.search_symbols)
+        is_search = is_search or "?" in sid.string  # an un-applied query: unfolding drops the search
         if sid and not is_search and sid.get(sid.keytype) not in conf.extension_alias:
             generator = self.do_find([sid], as_sid=as_sid)
         else:
